@@ -22,7 +22,7 @@ def run(patch, props, verbose=False):
         res = {}
         tgt = os.path.join(d, 'target')
         if os.path.isdir(os.path.join(VERIF, '.cache', 'target')):
-            subprocess.run(['cp', '-r', os.path.join(VERIF, '.cache', 'target'), tgt], check=True)
+            subprocess.run(['cp', '-r', os.path.join(VERIF, '.cache', 'target'), tgt], check=False, stderr=subprocess.DEVNULL)   # a concurrent check may be deleting member fingerprints: harmless
         for p in props:
             env = dict(os.environ, SFA_EVIDENCE_DIR=ev, SFA_TARGET_DIR=tgt)
             r = subprocess.run([os.path.join(VERIF, 'check'), p, '--src', src], capture_output=True, text=True, env=env)
